@@ -75,10 +75,11 @@ def shared_case(draw):
         spec["unique"] = list(draw(st.permutations(plain)))[: draw(st.integers(1, min(2, len(plain))))]
     if draw(st.integers(0, 3)) == 0:
         # string focus: one object column over a regex-stress pool with one pattern / length check
-        pool = ["a", "b", "ab", "ba", "cb", "xb", "bx", "a\u00e9", "\u00e9", "\u00e9\u00e9b", "", "abc", "aab"]
+        pool = ["a", "b", "ab", "ba", "cb", "xb", "bx", "a\u00e9", "\u00e9", "\u00e9\u00e9b", "", "abc", "aab", "\u00e9", "\u65e5\u672c"]
         cells = draw(st.lists(st.one_of(st.sampled_from(pool), st.sampled_from(pool), st.sampled_from(pool), st.none()),
                               min_size=n, max_size=n))
-        kind = draw(st.sampled_from(["str_matches", "str_matches", "str_contains", "str_startswith", "str_endswith", "str_length"]))
+        kind = draw(st.sampled_from(["str_matches", "str_matches", "str_contains", "str_startswith", "str_endswith", "str_length",
+                                     "str_length"]))
         if kind in ("str_matches", "str_contains"):
             args = {"pattern": draw(st.sampled_from(REGEX_POOL))}
         elif kind in ("str_startswith", "str_endswith"):
@@ -521,7 +522,7 @@ def _kf_pd_null_dups(family, case, disc):
 
 
 FAMILIES = [
-    Family("differential", evaluate, strategy=shared_case, n_quick=400, n_thorough=4000, shards_quick=4, shards_thorough=16,
+    Family("differential", evaluate, strategy=shared_case, n_quick=800, n_thorough=5000, shards_quick=4, shards_thorough=16,
            required_labels=["parsers=none", "check=str_matches", "check=in_range", "check=isin"]),
 ]
 
